@@ -16,9 +16,9 @@ fn pt(x: Time) -> String {
     format!("{} {}", x.sec(), x.nanosec())
 }
 
-pub fn run_line(line: &str) -> String {
+fn run_line(line: &str) -> String {
     let (op, rest) = line.split_once(' ').unwrap_or((line, ""));
-    let v = crate::util::ints(rest);
+    let v = vh::util::ints(rest);
     match op {
         "rtdur" => {
             let w: RtpsDuration = d(&v, 0).into();
@@ -59,4 +59,8 @@ pub fn run_line(line: &str) -> String {
         "monosub" => format!("OK {} {}", pd(d(&v, 0) - d(&v, 4)), pd(d(&v, 2) - d(&v, 4))),
         _ => "BADOP".to_string(),
     }
+}
+
+fn main() {
+    vh::main_loop(run_line);
 }
